@@ -358,10 +358,17 @@ func (e *Engine) callOpaque(st *State, instr ssa.Instruction, call *ssa.CallComm
 			}
 		}
 	}
-	for _, a := range args {
-		e.escape(st, a)
+	pureFn := false
+	if pn := fnParamName(call.Value); pn != "" && len(st.frames) > 0 && st.frames[0].contract != nil && st.frames[0].contract.FnParamPure[pn] {
+		pureFn = true
+		e.Assumed["assumed effect-free: function value "+pn+" (fnparam "+pn+" pure)"] = true
 	}
-	e.havocAllKeepPrivate(st)
+	if !pureFn {
+		for _, a := range args {
+			e.escape(st, a)
+		}
+		e.havocAllKeepPrivate(st)
+	}
 	res := e.freshResults(st, "fv", sig)
 	// `fnparam <name> ensures <expr>`: what the verified function assumes
 	// about a function-typed parameter (listed as an assumption)
@@ -406,6 +413,19 @@ func fnParamName(v ssa.Value) string {
 			return y.Name()
 		case *ssa.Alloc:
 			return y.Comment
+		case *ssa.FieldAddr:
+			// a func-typed struct field: t.callback(...)
+			if pt, ok := y.X.Type().Underlying().(*types.Pointer); ok {
+				if st, ok := pt.Elem().Underlying().(*types.Struct); ok {
+					return st.Field(y.Field).Name()
+				}
+			}
+		case *ssa.Global:
+			return y.Name()
+		}
+	case *ssa.Field:
+		if st, ok := x.X.Type().Underlying().(*types.Struct); ok {
+			return st.Field(x.Field).Name()
 		}
 	}
 	return ""
@@ -448,8 +468,18 @@ func (e *Engine) callContract(st *State, instr ssa.Instruction, fn *ssa.Function
 		// the callee may store its arguments into memory it is allowed to
 		// modify; harmless when all of that memory is private itself, and
 		// impossible for arguments whose type does not fit those locations
-		for _, a := range args {
-			if e.storableInto(env, c, a) {
+		for i, a := range args {
+			// a callback the contract says is (only) called: its body is
+			// executed by the verifier itself, its bindings reach no unknown code
+			called := false
+			if i < len(fn.Params) {
+				for _, cs := range c.Calls {
+					if cs.Param == fn.Params[i].Name() {
+						called = true
+					}
+				}
+			}
+			if !called && e.storableInto(env, c, a) {
 				e.escape(st, a)
 			}
 		}
@@ -718,6 +748,31 @@ func (e *Engine) invoke(st *State, instr ssa.Instruction, call *ssa.CallCommon, 
 		k(st, e.freshResults(st, "Error", m.Type().(*types.Signature)))
 		return
 	}
+	// an abstract method that receives function values may call them: it is
+	// not a pure getter.  Without a contract: the closures may have run any
+	// number of times and anything reachable may have changed.
+	hasFunc := false
+	for _, a := range args {
+		if a.Clo != nil {
+			hasFunc = true
+		} else if a.Ty != nil {
+			if _, ok := a.Ty.Underlying().(*types.Signature); ok {
+				hasFunc = true
+			}
+		}
+	}
+	if hasFunc {
+		e.unmodelled(st, "interface method with callbacks: "+strings.TrimPrefix(e.ifaceMethodName(m), "IM$"))
+		for _, a := range args {
+			if a.Clo != nil {
+				e.closureHavoc(st, a.Clo)
+			}
+			e.escape(st, a)
+		}
+		e.havocAllKeepPrivate(st)
+		k(st, e.freshResults(st, m.Name(), m.Type().(*types.Signature)))
+		return
+	}
 	rets := e.ifaceMethodApp(st, m, recv, args)
 	e.Assumed["A9 interface method pure+stable: "+strings.TrimPrefix(e.ifaceMethodName(m), "IM$")] = true
 	k(st, resultVal(m.Type().(*types.Signature), rets))
@@ -728,6 +783,13 @@ func (e *Engine) callIfaceContract(st *State, instr ssa.Instruction, m *types.Fu
 	env := &Env{e: e, st: st, sink: st, names: map[string]*Val{}, callArg: true}
 	env.pkg = m.Pkg()
 	env.names["self"] = recv
+	// type parameters of a generic interface: from the receiver's type arguments
+	if n, ok := types.Unalias(recv.Ty).(*types.Named); ok && n.TypeArgs() != nil && n.Origin().TypeParams() != nil {
+		env.tparams = map[string]types.Type{}
+		for i := 0; i < n.TypeArgs().Len() && i < n.Origin().TypeParams().Len(); i++ {
+			env.tparams[n.Origin().TypeParams().At(i).Obj().Name()] = n.TypeArgs().At(i)
+		}
+	}
 	for i := 0; i < sig.Params().Len(); i++ {
 		n := sig.Params().At(i).Name()
 		if n == "" || n == "_" {
